@@ -187,6 +187,109 @@ theorem setValue_step (w : World) (i : ObjId) (v : Rat) (h : (setValue w i v).er
 
 theorem setValue_sameBut (w : World) (i : ObjId) (v : Rat) : SameBut w (setValue w i v).w := setV_sameBut _ w i v
 
+/-! ## Why a value changed: the entry point, or a listener of a changed object -/
+
+/-- every change between `w` and `w'` is at an entry point (`E`) or is caused by a listener of a
+changed object -/
+def Cause (E : ObjId → Prop) (w w' : World) : Prop :=
+  ∀ j, val w' j ≠ val w j → E j ∨ ∃ x l, l ∈ w.lsn x ∧ tgt w l = some j ∧ val w' x ≠ val w x
+
+theorem fireList_cause {k : World → ObjId → Rat → WR} {v : Rat}
+    (hk : ∀ w t u, (k w t u).err = none → Step u w (k w t u).w ∧ val (k w t u).w t = u)
+    (hc : ∀ w t u, (k w t u).err = none → Cause (· = t) w (k w t u).w) (src : ObjId) :
+    ∀ (ls : List Nat) (w : World), val w src = v → (fireList k src w ls).err = none →
+      Cause (fun j => ∃ l ∈ ls, tgt w l = some j) w (fireList k src w ls).w
+  | [], w, _, _ => fun j hj => absurd rfl hj
+  | l :: rest, w, hv, herr => by
+    have hv' : (w.heap.get src).value = v := hv
+    have hstep := (fireList_step hk src (l :: rest) w hv herr).1
+    simp only [fireList] at herr hstep ⊢
+    cases ho : w.objs (w.lis l).pl with
+    | none => simp [ho] at herr
+    | some o =>
+      simp only [ho] at herr hstep ⊢
+      cases ht : o.params[(w.lis l).alias]? with
+      | none => simp [ht] at herr
+      | some t =>
+        simp only [ht] at herr hstep ⊢
+        by_cases hname : (nameOf w.heap t != (w.lis l).name) = true
+        · simp [hname] at herr
+        · have hname' : (nameOf w.heap t != (w.lis l).name) = false := by simpa using hname
+          simp only [hname', hv', Bool.false_eq_true, if_false] at herr hstep ⊢
+          cases hnone : (k w t v).err with
+          | some e => simp [hnone] at herr
+          | none =>
+            simp only [hnone] at herr hstep ⊢
+            obtain ⟨s1, _⟩ := hk w t v hnone
+            have c1 := hc w t v hnone
+            have hsrc : val (k w t v).w src = v := by
+              rcases s1.onlyV src with h | h
+              · rw [h]; exact hv
+              · exact h
+            have s2 := (fireList_step hk src rest (k w t v).w hsrc herr).1
+            have c2 := fireList_cause hk hc src rest (k w t v).w hsrc herr
+            have htl : tgt w l = some t := by simp only [tgt, ho, ht]
+            intro j hj
+            by_cases h1 : val (k w t v).w j = val w j
+            · -- changed by the rest of the loop
+              have h2 : val (fireList k src (k w t v).w rest).w j ≠ val (k w t v).w j := by rw [h1]; exact hj
+              rcases c2 j h2 with ⟨l', hl', htg⟩ | ⟨x, l', hl', htg, hx⟩
+              · exact Or.inl ⟨l', List.mem_cons_of_mem _ hl', by rw [← s1.toSameBut.tgt]; exact htg⟩
+              · refine Or.inr ⟨x, l', by rw [← s1.lsn]; exact hl', by rw [← s1.toSameBut.tgt]; exact htg, ?_⟩
+                -- `x` changed in the second part, hence overall
+                have hfv : val (fireList k src (k w t v).w rest).w x = v := by
+                  rcases s2.onlyV x with e | e
+                  · exact absurd e hx
+                  · exact e
+                rcases s1.onlyV x with e | e
+                · rw [← e]; exact hx
+                · rw [e] at hx; exact absurd hfv hx
+            · rcases c1 j h1 with rfl | ⟨x, l', hl', htg, hx⟩
+              · exact Or.inl ⟨l, List.mem_cons_self .., htl⟩
+              · refine Or.inr ⟨x, l', hl', htg, ?_⟩
+                have hxv : val (k w t v).w x = v := by
+                  rcases s1.onlyV x with e | e
+                  · exact absurd e hx
+                  · exact e
+                rcases s2.onlyV x with e | e
+                · rw [e]; exact hx
+                · rw [e, ← hxv]; exact hx
+
+theorem setV_cause : ∀ (f : Nat) (w : World) (i : ObjId) (v : Rat), (setV f w i v).err = none →
+    Cause (· = i) w (setV f w i v).w
+  | 0, w, i, v, h => by simp [setV] at h
+  | f + 1, w, i, v, h => by
+    have hstep := (setV_step (f + 1) w i v h)
+    simp only [setV] at h hstep ⊢
+    by_cases h1 : v = (w.heap.get i).value
+    · simp only [h1, if_true]
+      exact fun j hj => absurd rfl hj
+    · simp only [h1, if_false] at h hstep ⊢
+      by_cases h2 : (w.heap.get i).rejects v = true
+      · simp [h2] at h
+      · simp only [h2, Bool.false_eq_true, if_false] at h hstep ⊢
+        have hsb := sameBut_putValue w i v
+        have hvi : val (w.putValue i v) i = v := by simp
+        have c := fireList_cause (setV_step f) (setV_cause f) i (w.lsn i) (w.putValue i v) hvi h
+        have s := (fireList_step (setV_step f) i (w.lsn i) (w.putValue i v) hvi h).1
+        have hfi : val (fireList (setV f) i (w.putValue i v) (w.lsn i)).w i = v := hstep.2
+        have hne : val w i ≠ v := fun e => h1 e.symm
+        intro j hj
+        by_cases hji : j = i
+        · exact Or.inl hji
+        · have hp : val (w.putValue i v) j = val w j := by simp [hji]
+          rcases c j (by rw [hp]; exact hj) with ⟨l, hl, htg⟩ | ⟨x, l, hl, htg, hx⟩
+          · exact Or.inr ⟨i, l, hl, by rw [← hsb.tgt]; exact htg, by rw [hfi]; exact fun e => hne e.symm⟩
+          · refine Or.inr ⟨x, l, by rw [← hsb.lsn]; exact hl, by rw [← hsb.tgt]; exact htg, ?_⟩
+            by_cases hxi : x = i
+            · subst hxi; rw [hfi]; exact fun e => hne e.symm
+            · have : val (w.putValue x v) x = v := by simp
+              have hp' : val (w.putValue i v) x = val w x := by simp [hxi]
+              rw [← hp']; exact hx
+
+theorem setValue_cause (w : World) (i : ObjId) (v : Rat) (h : (setValue w i v).err = none) :
+    Cause (· = i) w (setValue w i v).w := setV_cause _ w i v h
+
 /-! ## Chains of listeners -/
 
 /-- `b` is reached from `x` through listeners whose two ends hold the same value in `w` -/
